@@ -299,7 +299,7 @@ def _gen_world(rng, nfun, allow):
     return prune(w)
 
 
-def gen_shared_keeps_world(rng):
+def gen_shared_keeps_world(rng, aliases=False):
     """several kept parents, each keeping - in its own order - some of a common pool of (path, function, literal argument)
     triples: the same node is reached from several parents, next to different siblings (every site of a path has the same
     signature, so the evaluation is accepted)"""
@@ -316,6 +316,10 @@ def gen_shared_keeps_world(rng):
     for j in range(npar):
         name = "f%d" % (1 + j)
         its = [copy.deepcopy(x) for x in rng.sample(pool, rng.randint(2, min(3, nleaf)))]
+        if aliases and j > 0:
+            # the same call kept under a second path (an alias): two paths, one signature
+            for x in its[:1]:
+                x["path"] = x["path"] + "_alias%d" % j
         parents.append({"name": name, "params": [], "store_path": None, "tag": "%s#0" % name, "reads": [], "items": its,
                         "fails": None, "uses_ext": False, "ws": None})
     root = {"name": "f0", "params": [], "store_path": None, "tag": "f0#0", "reads": [],
